@@ -49,6 +49,11 @@ pub enum Step {
 pub trait Obj {
     fn step(&mut self, toks: &[&str]) -> Step;
     fn boxed_clone(&self) -> Option<Box<dyn Obj>>;
+    fn as_any(&self) -> &dyn core::any::Any;
+    /// `Clone::clone_from`: overwrite this object with a copy of `other` (same concrete type); `false` = not available
+    fn clone_from_dyn(&mut self, _other: &dyn core::any::Any) -> bool {
+        false
+    }
 }
 
 fn bad() -> Step {
@@ -448,6 +453,18 @@ impl<M: ModeOps> Obj for BlockObj<M> {
     fn boxed_clone(&self) -> Option<Box<dyn Obj>> {
         Some(Box::new(Self { m: self.m.clone(), key: self.key.clone(), iv: self.iv.clone() }))
     }
+    fn as_any(&self) -> &dyn core::any::Any {
+        self
+    }
+    fn clone_from_dyn(&mut self, other: &dyn core::any::Any) -> bool {
+        match other.downcast_ref::<Self>() {
+            Some(o) => {
+                self.m.clone_from(&o.m);
+                true
+            }
+            None => false,
+        }
+    }
     fn step(&mut self, toks: &[&str]) -> Step {
         match toks {
             ["block", x] => {
@@ -564,6 +581,20 @@ where
     fn boxed_clone(&self) -> Option<Box<dyn Obj>> {
         Some(Box::new(Self { e: self.e.clone(), d: self.d.clone(), key: self.key.clone() }))
     }
+    fn as_any(&self) -> &dyn core::any::Any {
+        self
+    }
+    fn clone_from_dyn(&mut self, other: &dyn core::any::Any) -> bool {
+        match other.downcast_ref::<Self>() {
+            Some(o) => {
+                // field by field: `Option<T>::clone_from` forwards to `T::clone_from` when both are `Some`
+                self.e.clone_from(&o.e);
+                self.d.clone_from(&o.d);
+                true
+            }
+            None => false,
+        }
+    }
     fn step(&mut self, toks: &[&str]) -> Step {
         match toks {
             ["data", x] => {
@@ -613,6 +644,13 @@ pub trait CoreKind: StreamCipherCore + KeyIvInit + IvState + Debug + AlgorithmNa
     /// `Clone::clone` where the type implements it (`BeltCtrCore` does not)
     fn maybe_clone(&self) -> Option<Self>;
     fn maybe_clone_wrapper(w: &StreamCipherCoreWrapper<Self>) -> Option<StreamCipherCoreWrapper<Self>>;
+    /// `Clone::clone_from` where the type implements `Clone`
+    fn maybe_clone_from(&mut self, _other: &Self) -> bool {
+        false
+    }
+    fn maybe_clone_from_wrapper(_w: &mut StreamCipherCoreWrapper<Self>, _other: &StreamCipherCoreWrapper<Self>) -> bool {
+        false
+    }
     fn set_pos(&mut self, p: u128) -> bool;
     fn get_pos(&self) -> u128;
 }
@@ -664,7 +702,9 @@ macro_rules! impl_seekable_core {
 }
 
 impl_seekable_core!([fn maybe_clone(&self) -> Option<Self> { Some(self.clone()) }
-    fn maybe_clone_wrapper(w: &StreamCipherCoreWrapper<Self>) -> Option<StreamCipherCoreWrapper<Self>> { Some(w.clone()) }]
+    fn maybe_clone_wrapper(w: &StreamCipherCoreWrapper<Self>) -> Option<StreamCipherCoreWrapper<Self>> { Some(w.clone()) }
+    fn maybe_clone_from(&mut self, other: &Self) -> bool { self.clone_from(other); true }
+    fn maybe_clone_from_wrapper(w: &mut StreamCipherCoreWrapper<Self>, other: &StreamCipherCoreWrapper<Self>) -> bool { w.clone_from(other); true }]
     <C, F> CoreKind for ctr::CtrCore<C, F>
     where C: BlockCipherEncrypt + KeyInit + Clone + AlgorithmName + Debug + 'static, F: ctr::CtrFlavor<C::BlockSize> + 'static);
 impl_seekable_core!([fn maybe_clone(&self) -> Option<Self> { None }
@@ -682,6 +722,14 @@ where
     }
     fn maybe_clone_wrapper(w: &StreamCipherCoreWrapper<Self>) -> Option<StreamCipherCoreWrapper<Self>> {
         Some(w.clone())
+    }
+    fn maybe_clone_from(&mut self, other: &Self) -> bool {
+        self.clone_from(other);
+        true
+    }
+    fn maybe_clone_from_wrapper(w: &mut StreamCipherCoreWrapper<Self>, other: &StreamCipherCoreWrapper<Self>) -> bool {
+        w.clone_from(other);
+        true
     }
     fn set_pos(&mut self, _p: u128) -> bool {
         false
@@ -748,6 +796,15 @@ where
 {
     fn boxed_clone(&self) -> Option<Box<dyn Obj>> {
         Some(Box::new(Self { w: T::maybe_clone_wrapper(&self.w)?, key: self.key.clone(), iv: self.iv.clone() }))
+    }
+    fn as_any(&self) -> &dyn core::any::Any {
+        self
+    }
+    fn clone_from_dyn(&mut self, other: &dyn core::any::Any) -> bool {
+        match other.downcast_ref::<Self>() {
+            Some(o) => T::maybe_clone_from_wrapper(&mut self.w, &o.w),
+            None => false,
+        }
     }
     fn step(&mut self, toks: &[&str]) -> Step {
         match toks {
@@ -817,6 +874,15 @@ impl<T: CoreKind> CoreObj<T> {
 impl<T: CoreKind> Obj for CoreObj<T> {
     fn boxed_clone(&self) -> Option<Box<dyn Obj>> {
         Some(Box::new(Self { c: self.c.maybe_clone()?, key: self.key.clone() }))
+    }
+    fn as_any(&self) -> &dyn core::any::Any {
+        self
+    }
+    fn clone_from_dyn(&mut self, other: &dyn core::any::Any) -> bool {
+        match other.downcast_ref::<Self>() {
+            Some(o) => self.c.maybe_clone_from(&o.c),
+            None => false,
+        }
     }
     fn step(&mut self, toks: &[&str]) -> Step {
         let bs = <T::BlockSize as Unsigned>::USIZE;
@@ -910,6 +976,13 @@ impl<T: CoreKind> Obj for CoreObj<T> {
 // ------------------------------------------------------------------------------------------------
 // ciphertext stealing (one-shot, consuming)
 
+/// when set, the CTS adapters call the public `encrypt_inout` / `decrypt_inout` entry points directly instead of the
+/// `encrypt` / `decrypt` / `*_b2b` wrappers (ops `encio`, `decio`, `enciob`, `deciob`)
+pub static CTS_VIA_INOUT: std::sync::atomic::AtomicBool = std::sync::atomic::AtomicBool::new(false);
+fn via_inout() -> bool {
+    CTS_VIA_INOUT.load(std::sync::atomic::Ordering::Relaxed)
+}
+
 pub trait CtsKind: 'static {
     const HAS_IV: bool;
     fn enc(key: &[u8], iv: &[u8], buf: &mut [u8]) -> bool;
@@ -930,19 +1003,19 @@ macro_rules! impl_cts_cbc {
             const HAS_IV: bool = true;
             fn enc(key: &[u8], iv: &[u8], buf: &mut [u8]) -> bool {
                 let m = <Self as KeyIvInit>::new(key.try_into().unwrap(), iv.try_into().unwrap());
-                cts::Encrypt::encrypt(m, buf).is_ok()
+                if via_inout() { cts::Encrypt::encrypt_inout(m, buf.into()).is_ok() } else { cts::Encrypt::encrypt(m, buf).is_ok() }
             }
             fn dec(key: &[u8], iv: &[u8], buf: &mut [u8]) -> bool {
                 let m = <Self as KeyIvInit>::new(key.try_into().unwrap(), iv.try_into().unwrap());
-                cts::Decrypt::decrypt(m, buf).is_ok()
+                if via_inout() { cts::Decrypt::decrypt_inout(m, buf.into()).is_ok() } else { cts::Decrypt::decrypt(m, buf).is_ok() }
             }
             fn enc_b2b(key: &[u8], iv: &[u8], inp: &[u8], out: &mut [u8]) -> bool {
                 let m = <Self as KeyIvInit>::new(key.try_into().unwrap(), iv.try_into().unwrap());
-                cts::Encrypt::encrypt_b2b(m, inp, out).is_ok()
+                if via_inout() { match cipher::inout::InOutBuf::new(inp, out) { Ok(b) => cts::Encrypt::encrypt_inout(m, b).is_ok(), Err(_) => false } } else { cts::Encrypt::encrypt_b2b(m, inp, out).is_ok() }
             }
             fn dec_b2b(key: &[u8], iv: &[u8], inp: &[u8], out: &mut [u8]) -> bool {
                 let m = <Self as KeyIvInit>::new(key.try_into().unwrap(), iv.try_into().unwrap());
-                cts::Decrypt::decrypt_b2b(m, inp, out).is_ok()
+                if via_inout() { match cipher::inout::InOutBuf::new(inp, out) { Ok(b) => cts::Decrypt::decrypt_inout(m, b).is_ok(), Err(_) => false } } else { cts::Decrypt::decrypt_b2b(m, inp, out).is_ok() }
             }
             fn new_slices(key: &[u8], iv: &[u8]) -> bool {
                 <Self as KeyIvInit>::new_from_slices(key, iv).is_ok()
@@ -965,19 +1038,19 @@ macro_rules! impl_cts_ecb {
             const HAS_IV: bool = false;
             fn enc(key: &[u8], _iv: &[u8], buf: &mut [u8]) -> bool {
                 let m = <Self as KeyInit>::new(key.try_into().unwrap());
-                cts::Encrypt::encrypt(m, buf).is_ok()
+                if via_inout() { cts::Encrypt::encrypt_inout(m, buf.into()).is_ok() } else { cts::Encrypt::encrypt(m, buf).is_ok() }
             }
             fn dec(key: &[u8], _iv: &[u8], buf: &mut [u8]) -> bool {
                 let m = <Self as KeyInit>::new(key.try_into().unwrap());
-                cts::Decrypt::decrypt(m, buf).is_ok()
+                if via_inout() { cts::Decrypt::decrypt_inout(m, buf.into()).is_ok() } else { cts::Decrypt::decrypt(m, buf).is_ok() }
             }
             fn enc_b2b(key: &[u8], _iv: &[u8], inp: &[u8], out: &mut [u8]) -> bool {
                 let m = <Self as KeyInit>::new(key.try_into().unwrap());
-                cts::Encrypt::encrypt_b2b(m, inp, out).is_ok()
+                if via_inout() { match cipher::inout::InOutBuf::new(inp, out) { Ok(b) => cts::Encrypt::encrypt_inout(m, b).is_ok(), Err(_) => false } } else { cts::Encrypt::encrypt_b2b(m, inp, out).is_ok() }
             }
             fn dec_b2b(key: &[u8], _iv: &[u8], inp: &[u8], out: &mut [u8]) -> bool {
                 let m = <Self as KeyInit>::new(key.try_into().unwrap());
-                cts::Decrypt::decrypt_b2b(m, inp, out).is_ok()
+                if via_inout() { match cipher::inout::InOutBuf::new(inp, out) { Ok(b) => cts::Decrypt::decrypt_inout(m, b).is_ok(), Err(_) => false } } else { cts::Decrypt::decrypt_b2b(m, inp, out).is_ok() }
             }
             fn new_slices(key: &[u8], _iv: &[u8]) -> bool {
                 <Self as KeyInit>::new_from_slice(key).is_ok()
@@ -1016,11 +1089,30 @@ impl<K: CtsKind> Obj for CtsObj<K> {
         // the next `enc` goes through a real `Clone::clone` of the mode object
         Some(Box::new(Self { key: self.key.clone(), iv: self.iv.clone(), use_clone: true, _p: core::marker::PhantomData }))
     }
+    fn as_any(&self) -> &dyn core::any::Any {
+        self
+    }
     fn step(&mut self, toks: &[&str]) -> Step {
         let res = |ok: bool, buf: &[u8]| {
             if ok { line(format!("out {}", hex(buf))) } else { line(format!("err {}", hex(buf))) }
         };
-        match toks {
+        // `encio` etc.: the same call through the `*_inout` entry point
+        let (toks2, io): (Vec<&str>, bool) = match toks {
+            ["encio", x] => (vec!["enc", x], true),
+            ["decio", x] => (vec!["dec", x], true),
+            ["enciob", x, g] => (vec!["encb", x, g], true),
+            ["deciob", x, g] => (vec!["decb", x, g], true),
+            t => (t.to_vec(), false),
+        };
+        struct Reset;
+        impl Drop for Reset {
+            fn drop(&mut self) {
+                CTS_VIA_INOUT.store(false, std::sync::atomic::Ordering::Relaxed);
+            }
+        }
+        let _reset = Reset;
+        CTS_VIA_INOUT.store(io, std::sync::atomic::Ordering::Relaxed);
+        match toks2.as_slice() {
             ["enc", x] => {
                 let Some(mut b) = unhex(x) else { return bad() };
                 let ok = if self.use_clone { K::enc_via_clone(&self.key, &self.iv, &mut b) } else { K::enc(&self.key, &self.iv, &mut b) };
@@ -1067,6 +1159,9 @@ impl<C: BlockCipherEncrypt + BlockCipherDecrypt + KeyInit + Clone + 'static> Raw
 impl<C: BlockCipherEncrypt + BlockCipherDecrypt + KeyInit + Clone + 'static> Obj for RawObj<C> {
     fn boxed_clone(&self) -> Option<Box<dyn Obj>> {
         Some(Box::new(Self { c: self.c.clone() }))
+    }
+    fn as_any(&self) -> &dyn core::any::Any {
+        self
     }
     fn step(&mut self, toks: &[&str]) -> Step {
         let bs = <C::BlockSize as Unsigned>::USIZE;
